@@ -371,6 +371,31 @@ fn special(op: &str, pattern: &str, casei: bool, limit: Option<usize>, text: &st
             };
             Some(format!("{}|{}", ra, rb))
         }
+        "build_opts" => {
+            // delegate_size_limit = limit; arg 1: followed by delegate_dfa_size_limit,
+            // arg 2: preceded by it
+            let l = limit.unwrap_or(0);
+            let dfa = if l >= (1 << 28) { 1usize << 28 } else { 1usize << 22 };
+            let mut b = RegexBuilder::new(pattern);
+            if l >= (1 << 28) {
+                b.backtrack_limit(999_999);
+            }
+            match arg {
+                0 => {
+                    b.delegate_size_limit(l);
+                }
+                1 => {
+                    b.delegate_size_limit(l).delegate_dfa_size_limit(dfa);
+                }
+                _ => {
+                    b.delegate_dfa_size_limit(dfa).delegate_size_limit(l);
+                }
+            }
+            Some(match b.build() {
+                Ok(_) => "OK".to_string(),
+                Err(_) => "ERR".to_string(),
+            })
+        }
         "build" => Some(match build(pattern, casei, limit) {
             Ok(_) => "OK".to_string(),
             Err(e) => format!("ERR:{}", e),
